@@ -1318,13 +1318,13 @@ def run_C20(ctx):
 
 CHECKS = {
     "C20": {"level": "exploration", "run": run_C20, "assumptions": ASSUME_COMMON + ["the no_std build of rbpf is linked into an ordinary std binary (rv_nostd); JIT code runs from mmap'ed RWX memory passed to set_jit_exec_memory"],
-            "rule": "corpus = rendered token programs of MC_Text + seeded fuzz strings (assembler), MC_Text byte programs (disassembler), MC_Verdict byte strings (verifier), MC_Exec cases of families alu/jmp/mem/ctx/far on all VM kinds (interpreter, and x86-64 JIT where the specification defines the result); both builds produce a transcript, TLC (TracePair) requires equality line by line and equality with the specification's own answer where it has one; non-trivial = corpus items"},
+            "rule": "corpus = rendered token programs of MC_Text + seeded fuzz strings (assembler), MC_Text byte programs (disassembler), MC_Verdict byte strings (verifier), MC_Exec cases of families alu/jmp/mem/ctx/far on all VM kinds (interpreter, and x86-64 JIT where the specification defines the result); both builds produce a transcript, TLC (TracePair) requires equality line by line and equality with the specification's own answer where it has one; non-trivial = corpus items; API histories (all sequences of up to 4 calls over set_program / jit_compile / exec / exec_jit on two VM kinds + seeded longer ones; the no_std build is handed fresh executable memory before every call that may need it) and compilation into one page of caller-supplied memory around the size where the code stops fitting"},
     "C18": {"level": "exploration", "run": run_C18, "assumptions": ASSUME_COMMON + ["atomicity of the hardware instructions is only stressed, not proved"],
             "rule": "design: Xadd.tla, all interleavings of N <= 3 (thorough 4) processes x K <= 2 (3) adds with wrapping addends and two neighbour words (NoLostUpdate, NeighboursUntouched, termination), with negative controls split / wide; binding: 12 (thorough 200) configurations of 2..16 threads mixing interpreter (through registered allowed memory), x86-64 JIT and Cranelift, 32 and 64 bit, 2*10^5 (2*10^6) adds per thread behind a barrier, final word and surrounding bytes validated by TLC (TraceXadd); every atomic add of the bounds family incl. misaligned ones replayed; non-trivial = configurations + cases"},
     "C19": {"level": "model_checking", "run": run_C19, "assumptions": ASSUME_COMMON + ["stdout of bpf_trace_printf captured through a pipe on fd 1"],
             "rule": "MC_Helpers: gather_bytes on 10 boundary words^5 (sampled), memfrob on every length 0..64 at 5 offsets of a canary-surrounded buffer (once and twice), strcmp on all ordered pairs of 16 strings incl. prefixes and bytes >= 0x80 plus null pointers, bpf_trace_printf with 16^k-1, 16^k, 16^k+1 (k = 0..16) in each printed position (returned = bytes printed = specified); sqrti at k^2, k^2+-1 around powers of two and random, rand on boundary (min,max) pairs incl. max = 2^64-1, validated by TLC against SqrtOk / RandOk; distinct by case"},
     "C17": {"level": "model_checking", "run": run_C17, "assumptions": ASSUME_COMMON,
-            "rule": "MC_Isa: slots varying each byte position over all 256 values in 3 contexts (opcode, register byte, 4 immediate lanes) and the two offset bytes over all 65,536 values; invariant Encode(Decode(s)) = s and Decode(Encode(Decode(s))) = Decode(s); replayed through Insn::to_array, Insn::to_vec, get_insn at indices 0/1/7/1000, to_insn_vec; every builder constructor x Source x Arch x MemSize x Cond x Endian x boundary fields against Isa!Encode, Insn::to_array and (where a mnemonic exists) Asm / assemble; distinct by slot / constructor+fields"},
+            "rule": "MC_Isa: slots varying each byte position over all 256 values in 3 contexts (opcode, register byte, 4 immediate lanes) and the two offset bytes over all 65,536 values; invariant Encode(Decode(s)) = s and Decode(Encode(Decode(s))) = Decode(s); replayed through Insn::to_array, Insn::to_vec, get_insn at indices 0/1/7/1000, to_insn_vec; every builder constructor x Source x Arch x MemSize x Cond x Endian x boundary fields against Isa!Encode, Insn::to_array and (where a mnemonic exists) Asm / assemble; distinct by slot / constructor+fields; TLAPS: Decode(Encode(i)) = i for all well-typed instructions (IsaProofs.tla); builder programs of several and of up to 200,001 instructions; every entry of to_insn_vec"},
     "C13": {"level": "model_checking", "run": run_C13, "assumptions": ASSUME_COMMON + ["the harness's renderer (tokens -> text) is the only concrete-syntax step"],
             "rule": "MC_Text asm families: every mnemonic x its operand shape(s) x registers {0,9,10,15,16,99} x offsets around +-32768 x immediates around +-2^31 x 4 spellings (decimal/hex, explicit sign); every mnemonic with every other shape's operands; non-mnemonics; multi-instruction sequences (order, error in the middle, mnemonic after an operand-less instruction); literal classes up to 40 digits; Asm!Assemble gives bytes or refusal, DecodeOK checked in the model; replayed through rbpf::assembler::assemble; distinct by token program; every case is assembled in five white-space layouts of the grammar (canonical, indented with tabs and blank lines, no blank after commas, whole program on one line, line breaks after commas with CR LF) and must give the same answer"},
     "C14": {"level": "exploration", "run": run_C14, "assumptions": ASSUME_COMMON,
@@ -1334,27 +1334,27 @@ CHECKS = {
     "C16": {"level": "model_checking", "run": run_C16, "assumptions": ASSUME_COMMON,
             "rule": "the C15 programs: in the specification Assemble(desc(HL(p))) is computed and the RoundTrip law (identity on expressible programs, canonical form whenever accepted) is an invariant of MC_Text; on the implementation assemble(join(to_insn_vec(p).desc)) must give exactly the specified bytes / refusal; distinct by byte string"},
     "C12": {"level": "model_checking", "run": run_C12, "assumptions": ASSUME_COMMON + ["hook H2 reports the JIT's counted / emitted / buffer sizes"],
-            "rule": "every accepted program of the MC_Safety universe (all programs up to MaxLen slots over 32 templates: dead code, back edges, last-instruction kinds, wide loads, helper and local calls) compiled twice with the x86-64 JIT on the 4 VM kinds and with Cranelift, with helper sets {} and {1}; expected Ok/Err from Verifier!CompileOk; seeded random accepted programs (arbitrary opcodes / registers / displacements) validated by TLC (TraceCompile); size ladder 1..999,999 instructions incl. every size around the code buffer's first page boundary; non-trivial = accepted programs"},
+            "rule": "every accepted program of the MC_Safety universe (all programs up to MaxLen slots over 32 templates: dead code, back edges, last-instruction kinds, wide loads, helper and local calls) compiled twice with the x86-64 JIT on the 4 VM kinds and with Cranelift, with helper sets {} and {1}; expected Ok/Err from Verifier!CompileOk; seeded random accepted programs (arbitrary opcodes / registers / displacements) validated by TLC (TraceCompile); size ladder 1..999,999 instructions incl. every size around the code buffer's first page boundary; non-trivial = accepted programs Whatever the REAL verifier accepts is compiled (also programs the specification refuses: only panics count there)."},
     "C10": {"level": "model_checking", "run": run_C10, "assumptions": ASSUME_COMMON,
             "rule": "VmApi.tla explored completely (all histories over the finite abstract state: 8 programs x 4 verifiers x compiled artefacts x helper x calculator x layout) for each VM kind with invariants RunsLatestLoaded, LoadedWasVerified, NoProgIsError, NotCompiledIsError and the action property FailedCallIsNoOp; binding: seeded random histories of 30 calls over {new, set_program(valid|invalid|valid-for-other-verifier, layout), set_verifier, register_helper, set_stack_usage_calculator, jit_compile, cranelift_compile, execute x3 engines x2 packets} on real VM objects of each kind, every call and result validated by TraceApi.tla; plus a transition cover: every transition of the abstract state graph (MC_VmApiTour, 250-772 states, 6-28 k transitions per kind) is taken at least once by call sequences planned by lib/tour.py, performed on real objects and validated the same way; 4 packets (two addresses, same address with another length, empty); non-trivial = histories"},
     "C05": {"level": "model_checking", "run": run_C05, "assumptions": ASSUME_COMMON,
-            "rule": "MC_Safety: every program of 1..MaxLen slots over 32 instruction templates on the verifier's rule boundaries, explored under the control-flow abstraction MachineCF (all inputs, helper sets and budgets: branches, accesses and helper calls go both ways), invariant: accepted => never stuck; soundness of the abstraction checked as a refinement (Machine => MachineCF) on the concrete case families; every program is replayed through the real verifier and, if accepted, run on the real interpreter under a budget; non-trivial = accepted programs"},
+            "rule": "MC_Safety: every program of 1..MaxLen slots over 32 instruction templates on the verifier's rule boundaries, explored under the control-flow abstraction MachineCF (all inputs, helper sets and budgets: branches, accesses and helper calls go both ways), invariant: accepted => never stuck; soundness of the abstraction checked as a refinement (Machine => MachineCF) on the concrete case families; every program is replayed through the real verifier and, if accepted, run on the real interpreter under a budget; non-trivial = accepted programs; TLAPS: SafetyAbs.tla (a well-formed abstract program of any length never gets stuck) + MC_SafetyAbs (MachineCF refines it on the universe); verdict replays also over a VM that already holds a program (a refused load must leave it runnable)"},
     "C06": {"level": "model_checking", "run": run_C06, "assumptions": ASSUME_COMMON,
-            "rule": "MC_Verdict: 256 opcode bytes x register bytes x 5 positions, every jump/local-call opcode x displacement around program bounds and a wide load (incl. displacements beyond 16 bits), le/be/xadd/call immediates and call kinds, length classes up to 1,000,002 slots with trailing bytes, far targets in long programs; plus the MC_Safety universe; Verifier!Verdict decides; replayed through new() and set_program() of the four VM kinds; direction A: every verdict the default verifier gave while /repo's own tests ran (hook H4) validated by TraceVerdict.tla; distinct by id tuple"},
+            "rule": "MC_Verdict: 256 opcode bytes x register bytes x 5 positions, every jump/local-call opcode x displacement around program bounds and a wide load (incl. displacements beyond 16 bits), le/be/xadd/call immediates and call kinds, length classes up to 1,000,002 slots with trailing bytes, far targets in long programs; plus the MC_Safety universe; Verifier!Verdict decides; replayed through new() and set_program() of the four VM kinds; direction A: every verdict the default verifier gave while /repo's own tests ran (hook H4) validated by TraceVerdict.tla; distinct by id tuple; family 6 (contents of a wide load's second slot), family 7 (the same jump / call twice in a row)"},
     "C07": {"level": "model_checking", "run": run_C07, "assumptions": ASSUME_COMMON,
             "rule": "Cases.tla family calls: chains of nested local calls of depth 0..9 in forward and backward layout x 7 frame-size calculators (none, constant 0/16/64/256/512, per-entry table), bounded recursion depth 1..10, far calls; every function checks its callee-saved registers, r10, its own stack slot and the pass-through of r0-r5; a call tree (two calls from one function, per-function frame sizes); Machine.tla (invariants DepthBound, FramePointerOK) gives the outcome incl. depth / stack errors; replayed on interpreter and x86-64 JIT; random call chains and /repo's own tests validated step by step (depth, r6-r10, return addresses)"},
     "C08": {"level": "model_checking", "run": run_C08, "assumptions": ASSUME_COMMON + ["instrumented helpers read rsp with inline asm and compare it with the value seen when the same function is called from Rust"],
-            "rule": "Cases.tla family helpers: ids {0,1,6,2^31-1,2^31,2^32-1} x 5 argument tuples from V64 x call depth 0..3 x 1-3 calls per program x registered sets {exact, superset, missing one}; Machine!ExecCallHelper logs the expected calls; instrumented helpers in the harness log the actual ones (id, arguments, stack alignment) on interpreter, JIT and Cranelift"},
+            "rule": "Cases.tla family helpers: ids {0,1,6,2^31-1,2^31,2^32-1} x 5 argument tuples from V64 x call depth 0..3 x 1-3 calls per program x registered sets {exact, superset, missing one}; Machine!ExecCallHelper logs the expected calls; instrumented helpers in the harness log the actual ones (id, arguments, stack alignment) on interpreter, JIT and Cranelift; call depth 7 and 8; a decoy registered (and compiled in) under every id before the real function; family flow; the suite's own helper calls validated step by step"},
     "C09": {"level": "model_checking", "run": run_C09, "assumptions": ASSUME_COMMON,
             "rule": "Cases.tla family ctx: 12 probe programs x 4 VM kinds x 6 packet lengths (incl. 0) x 9 (data_offset, data_end_offset) pairs (either order, adjacent, 4096, 65536) x cold / warm (an earlier execution with another, larger packet elsewhere) / warm-same-address (an earlier execution with a packet at the same address and another length); Exec!InitFor gives the context; replayed on the three engines"},
     "C01": {"level": "model_checking", "run": run_C01, "assumptions": ASSUME_COMMON,
-            "rule": "TLC enumerates Cases.tla families alu/jmp/far/mem (every ALU/JMP/JMP32/endian/load/store opcode x boundary operands V64/I32/OFFS x register pairs; branches at instruction indices up to 983,045), Machine.tla computes the outcome, the harness replays each case on the real interpreter; a case is non-trivial/distinct by its id tuple (family tag, opcode, registers, operand indices, immediate); direction A: seeded random structured programs and every interpreter run of /repo's own tests (tests/ubpf_vm.rs, tests/misc.rs, doc-tests in the thorough tier; hook H3) validated instruction by instruction by TraceInterp.tla, final stack bytes included"},
+            "rule": "TLC enumerates Cases.tla families alu/jmp/far/mem (every ALU/JMP/JMP32/endian/load/store opcode x boundary operands V64/I32/OFFS x register pairs; branches at instruction indices up to 983,045), Machine.tla computes the outcome, the harness replays each case on the real interpreter; a case is non-trivial/distinct by its id tuple (family tag, opcode, registers, operand indices, immediate); direction A: seeded random structured programs and every interpreter run of /repo's own tests (tests/ubpf_vm.rs, tests/misc.rs, doc-tests in the thorough tier; hook H3) validated instruction by instruction by TraceInterp.tla, final stack bytes included; family frame (an instruction changes its destination and nothing else: all ten registers stored into the packet after one instruction of every ALU / byte-swap / packet-load opcode, on the raw and the fixed-metadata VM) and family flow (shapes that defeat translation-time knowledge: an unreached call of an unregistered helper, pairs of identical operations or conditional jumps at a jump target, aliases of one location, r0 rewritten by a helper / packet load / load / wide load / local call and then used as a source or a base, loops of every code distance, a loop header after a conditional jump); atomic adds in family mem; MC_Word64: the limb arithmetic against native 64-bit arithmetic"},
     "C02": {"level": "model_checking", "run": run_C02, "assumptions": ASSUME_COMMON,
-            "rule": "Cases.tla family bounds: {ldx,st,stx,xadd} x widths x every position within 9 bytes of both ends of packet / metadata / stack / registered ranges x 3 base displacements x 6 layouts, null and wrap-around addresses, ldabs/ldind around the packet end; Machine!Allowed decides; replayed on the interpreter with buffers mapped at the stated addresses between unmapped pages; stack accesses addressed directly through r10; regions shorter than the access; nested registered ranges; the out-of-bounds and in-bounds runs of /repo's own tests validated step by step (hook H3); distinct by id tuple"},
+            "rule": "Cases.tla family bounds: {ldx,st,stx,xadd} x widths x every position within 9 bytes of both ends of packet / metadata / stack / registered ranges x 3 base displacements x 6 layouts, null and wrap-around addresses, ldabs/ldind around the packet end; Machine!Allowed decides; replayed on the interpreter with buffers mapped at the stated addresses between unmapped pages; stack accesses addressed directly through r10; regions shorter than the access; nested registered ranges; the out-of-bounds and in-bounds runs of /repo's own tests validated step by step (hook H3); distinct by id tuple; two registered ranges one byte apart; pairs of accesses (narrow in bounds, then wider out of bounds) through one base"},
     "C03": {"level": "translation_validation", "run": run_C03, "assumptions": ASSUME_COMMON,
-            "rule": "the C01 case set executed on the interpreter and the x86-64 JIT in forked children; results compared with each other and adjudicated by the specification; runs the specification judges undefined or erroneous are not executed on the JIT"},
+            "rule": "the C01 case set executed on the interpreter and the x86-64 JIT in forked children; results compared with each other and adjudicated by the specification; runs the specification judges undefined or erroneous are not executed on the JIT Families as C01 incl. calls, frame and flow (see C01); every compiled run of tests/ubpf_jit_x86_64.rs and tests/misc.rs validated by TraceInterp with silent steps"},
     "C04": {"level": "translation_validation", "run": run_C04, "assumptions": ASSUME_COMMON,
-            "rule": "the C01 case set executed on the interpreter and Cranelift-compiled code in forked children; results compared with each other and adjudicated by the specification"},
+            "rule": "the C01 case set executed on the interpreter and Cranelift-compiled code in forked children; results compared with each other and adjudicated by the specification Families as C01 incl. calls, frame and flow; every compiled run of tests/cranelift.rs validated by TraceInterp with silent steps"},
     "C11": {"level": "model_checking", "run": run_C11, "assumptions": ASSUME_COMMON,
             "rule": "the C02 bounds family restricted to packet / metadata / stack, each case run on Cranelift-compiled code in a forked child: expected value, or death by SIGILL (trap) exactly where Machine!Allowed refuses the access; incl. accesses addressed directly through r10 with a constant offset at both ends of the stack, and atomic adds with non-zero offsets"},
 }
